@@ -4,7 +4,8 @@
    decoder forwards exactly the well-formed in-sequence prefix; the stream handed to import is consecutively
    numbered for every peer; an honest peer's preferred chain becomes best, for every batch cut. *)
 From Coq Require Import List NArith Bool Lia.
-From Verif Require Import Common.Util Sync.Model Sync.Proofs Sync.ProofsDownload Sync.ProofsConverge.
+From Verif Require Import Common.Util Sync.Model Sync.Proofs Sync.ProofsDownload Sync.ProofsConverge
+  Sync.ModelRPC Sync.ProofsRPC.
 Import ListNotations.
 Open Scope N_scope.
 
@@ -32,6 +33,11 @@ Theorem ancestor_result_probed ov head fuel r :
   find_common_ancestor ov head fuel = Anc r -> r = 0 \/ ov r = Some true.
 Proof. exact (fca_result_probed ov head fuel r). Qed.
 
+(* 2b. whatever the peer answers (inconsistent, failing), the search ends within the probe budget: it never loops *)
+Theorem ancestor_terminates ov head fuel :
+  head < 2147483648 -> (ancestor_fuel head <= fuel)%nat -> find_common_ancestor ov head fuel <> NoFuel.
+Proof. intro H. exact (fca_terminates ov head H fuel). Qed.
+
 (* 3. bad_batch_rejected (as coded: per block, in order): the decoder forwards the decoded longest prefix of
       blocks that are well-formed and numbered start+i; the first offending block and everything behind it in the
       batch never reaches import, and the status names the offence.  (Blocks of the same batch that precede
@@ -54,6 +60,16 @@ Theorem stream_in_sequence (Raw Blk : Type) hn db (num : Blk -> N) peer fuel fro
   download_stream Raw Blk hn db peer from fuel = (l, st) ->
   forall k b, nth_error l k = Some b -> num b = wrap32 (from + N.of_nat k).
 Proof. intros H. exact (ProofsDownload.stream_in_sequence Raw Blk hn db num H peer fuel from l st). Qed.
+
+(* 4b. without wrap: as long as from + (blocks handed over) stays below 2^32 the numbers are from + k themselves *)
+Theorem stream_in_sequence_nowrap (Raw Blk : Type) hn db (num : Blk -> N) peer fuel from l st :
+  (forall r b n, db r = Some b -> hn r = Some n -> num b = n) ->
+  download_stream Raw Blk hn db peer from fuel = (l, st) -> from + N.of_nat (length l) <= 4294967296 ->
+  forall k b, nth_error l k = Some b -> num b = from + N.of_nat k.
+Proof.
+  intros H Hd Hb k b Hk. rewrite (ProofsDownload.stream_in_sequence Raw Blk hn db num H peer fuel from l st Hd k b Hk).
+  assert (k < length l)%nat by (apply nth_error_Some; congruence). apply wrap32_small. lia.
+Qed.
 
 (* 5. an honest peer's chain is delivered whole, for every choice of batch boundaries *)
 Theorem download_complete (Blk : Type) (num : Blk -> N) rc cut fuel from :
@@ -100,6 +116,60 @@ Theorem sync_converges (Blk : Type) (bid parent num : Blk -> N) valid better
 Proof.
   intros. eapply sync_converges_thm; eauto.
 Qed.
+
+(* 7. hostile peer input — the part that is proved.  rpc.Serve + comm.handleRPC as accept/reject functions
+      (Sync/ModelRPC.v; decoding itself is an input): nothing of a message reaches the node (block feed -> import,
+      announcement fetch, tx pool) unless its frame is within the size limit of its class (10 MiB; tx messages
+      64 KiB + 1 KiB) AND it decodes as the type of its message code; messages above the limit, undecodable ones and
+      unknown codes disconnect the peer; all other codes are answered read-only; a result is delivered only to the call
+      waiting for that code.  NOT proved (exercised by the harness only): that decoding and the handlers never
+      panic on any byte string, and that the read-only answers do not write to the store. *)
+Theorem hostile_effect_guarded pending m :
+  touches_node (serve pending mcode_eqb m) = true ->
+  m_size m <= max_msg_size /\ m_arg_ok m = true /\ (exists id, m_env m = Some (id, false)) /\
+  match serve pending mcode_eqb m with
+  | RFeedBlock => m_code m = CNewBlock
+  | RAnnounce => m_code m = CNewBlockID
+  | RPoolAdd => m_code m = CNewTx /\ m_size m <= max_tx_msg_size
+  | _ => False
+  end.
+Proof. exact (effect_guarded pending m). Qed.
+
+Theorem hostile_oversize_dropped pending m : max_msg_size < m_size m -> serve pending mcode_eqb m = RDrop.
+Proof. exact (oversize_dropped pending m). Qed.
+
+Theorem hostile_undecodable_dropped pending m :
+  m_env m = None \/ (exists id, m_env m = Some (id, false) /\ m_arg_ok m = false) -> serve pending mcode_eqb m = RDrop.
+Proof. exact (undecodable_dropped pending m). Qed.
+
+Theorem hostile_unknown_code_dropped pending m id :
+  m_env m = Some (id, false) -> m_code m = CUnknown -> serve pending mcode_eqb m = RDrop.
+Proof. exact (unknown_code_dropped pending m id). Qed.
+
+Theorem hostile_other_codes_read_only pending m :
+  match m_code m with CNewBlock | CNewBlockID | CNewTx => False | _ => True end ->
+  touches_node (serve pending mcode_eqb m) = false.
+Proof. exact (other_codes_read_only pending m). Qed.
+
+Theorem hostile_result_guarded pending m :
+  serve pending mcode_eqb m = RDeliver ->
+  exists id, m_env m = Some (id, true) /\ pending id = Some (m_code m) /\ m_arg_ok m = true.
+Proof. exact (result_guarded pending m). Qed.
+
+(* a peer that announces an id and then answers the node's GetBlockByID inconsistently (another block, several
+   blocks, a malformed one, a wrong body) gets nothing into the block feed *)
+Theorem hostile_announcement_fetch_guarded announced answer id :
+  fetch_accept announced answer = FFeed id -> id = announced /\ answer = [(Some announced, true)].
+Proof. exact (fetch_guarded announced answer id). Qed.
+
+(* and whatever stream of blocks reaches import (download stream, block feed), from whatever peer: only blocks that
+   pass the node's validation with a stored parent enter the store, and best moves only to such a block.
+   (`valid` abstracts consensus.Process + bft.Accepts: C02.) *)
+Theorem hostile_import_sound (Blk : Type) bid parent valid better l st st' ok :
+  import_all Blk bid parent valid better st l = (st', ok) ->
+  (forall x, In x (store Blk st') -> In x (store Blk st) \/ (In x l /\ valid x = true)) /\
+  (best Blk st' = best Blk st \/ (In (best Blk st') l /\ valid (best Blk st') = true)).
+Proof. exact (import_all_sound Blk bid parent valid better l st st' ok). Qed.
 
 (* ------------------------------------------------------------------ non-vacuity *)
 
@@ -173,6 +243,34 @@ Proof.
     subst a. vm_compute in H3. inversion H3. subst l. auto.
 Qed.
 
+(* the hypothesis of stream_in_sequence (the body decodes the header whose number was checked) on the oracle's instance *)
+Example body_header_example :
+  forall (r : N * bool) (b n : N),
+    (if snd r then Some (fst r) else None) = Some b -> Some (fst r) = Some n -> (fun x : N => x) b = n.
+Proof. intros [x [|]] b n H1 H2; cbn in *; congruence. Qed.
+
+Example serve_example :
+  serve (fun _ => None) mcode_eqb (mkMsg CNewTx 70000 (Some (5, false)) true) = RDrop /\
+  serve (fun _ => None) mcode_eqb (mkMsg CNewTx 300 (Some (0, false)) true) = RPoolAdd /\
+  serve (fun _ => None) mcode_eqb (mkMsg CNewBlock 300 (Some (0, false)) false) = RDrop /\
+  serve (fun _ => None) mcode_eqb (mkMsg CGetBlocksFromNumber 9 (Some (77, true)) true) = RIgnore /\
+  fetch_accept 9 [(Some 8, true)] = FRejected /\ fetch_accept 9 [(Some 9, true)] = FFeed 9.
+Proof. vm_compute. repeat split; reflexivity. Qed.
+
+Print Assumptions ancestor_example.
+Print Assumptions ancestor_hyps_example.
+Print Assumptions ancestor_wrap_example.
+Print Assumptions bad_batch_example.
+Print Assumptions ancestor_terminates.
+Print Assumptions stream_in_sequence_nowrap.
+Print Assumptions hostile_effect_guarded.
+Print Assumptions hostile_oversize_dropped.
+Print Assumptions hostile_undecodable_dropped.
+Print Assumptions hostile_unknown_code_dropped.
+Print Assumptions hostile_other_codes_read_only.
+Print Assumptions hostile_result_guarded.
+Print Assumptions hostile_announcement_fetch_guarded.
+Print Assumptions hostile_import_sound.
 Print Assumptions ancestor_correct.
 Print Assumptions last_common_unique.
 Print Assumptions ancestor_fail_sound.
